@@ -116,6 +116,26 @@ class Corpus:
             raise RuntimeError("xz %s failed: %s" % (args, p.stderr.decode("utf-8", "replace")[-400:]))
         return p.stdout
 
+    def mem_figures(self, path, st):
+        """[(mem_next_block, outbuf memory)] per Block: raw decoder memory usage of the filter chain (xz --robot --list -vv),
+        plus the input buffer (Compressed Size rounded up to 4, plus the Check) and the output buffer (lzma_outbuf header +
+        Uncompressed Size). Only used to aim the memlimit_threading sweep; the exact values do not matter."""
+        try:
+            p = subprocess.run([self.xz, "--robot", "--list", "-vv", path], stdout=subprocess.PIPE, stderr=subprocess.PIPE,
+                               timeout=60, env=dict(os.environ, ASAN_OPTIONS="detect_leaks=0"))
+            if p.returncode != 0:
+                return None
+            out = []
+            for line in p.stdout.decode("utf-8", "replace").splitlines():
+                f = line.split("\t")
+                if f[0] == "block" and len(f) >= 15:
+                    usize, csize, memusage = int(f[7]), int(f[13]), int(f[14])
+                    outbuf = usize + 64
+                    out.append((memusage + ((csize + 3) & ~3) + st["check_size"] + outbuf, outbuf))
+            return out or None
+        except Exception:
+            return None
+
     def add(self, name, data, **kw):
         path = os.path.join(self.outdir, name + ".xz")
         with open(path, "wb") as f:
@@ -153,12 +173,25 @@ class Corpus:
                 ("t4-arm64", rng.randrange(40000, 90000), 2, ["-T4", "--block-size=%d" % rng.randrange(10000, 25000), "--arm64", "--lzma2=preset=0,dict=64KiB"], True, True),
                 ("t2-big-blocks", rng.randrange(500000, 900000), 2, ["-T2", "--block-size=%d" % rng.randrange(150000, 300000), "-0"], True, False),
             ]
+        # alternating small / large Blocks: a worker that finished a small Block is recycled for a later small Block while the
+        # large Block in between is still being decoded
+        alt = []
+        for _ in range(3):
+            alt += [rng.randrange(1500, 5000), rng.randrange(60000, 110000)]
+        alt += [rng.randrange(1500, 5000)]
+        specs.append(("t2-alt-blocks", sum(alt) + rng.randrange(2000, 6000), 2,
+                      ["-T2", "--lzma2=preset=0,dict=64KiB", "--block-list=" + ",".join(str(a) for a in alt) + ",0"], True, False))
         for name, size, kind, args, sized, bcj in specs:
             raw = payload(rng, size, kind)
             x = self._xz(raw, args)
             st = parse_stream(x)
             bases.append((name, x, dict(sized=sized, bcj=bcj, nblocks=len(st["blocks"]), usize=size)))
-            self.add(name, x, kind="valid", valid=True, concatenated=False, **bases[-1][2])
+            e = self.add(name, x, kind="valid", valid=True, concatenated=False, **bases[-1][2])
+            if sized and len(st["blocks"]) >= 3:
+                # (mem_next_block, outbuf memory) per Block as SEQ_BLOCK_INIT computes them, for the fine memlimit_threading sweep
+                mf = self.mem_figures(e["path"], st)
+                if mf:
+                    e["memfig"] = mf
 
         def b(n):
             for nm, x, m in bases:
@@ -235,6 +268,14 @@ class Corpus:
                     ("trunc-last-block-1", last["off"] + last["total"] - 1),
                     ("trunc-mid-index", st["index_off"] + 2),
                     ("trunc-mid-footer", st["footer_off"] + 5)]
+            if nm == "t2-alt-blocks":
+                # input ends inside a small Block that follows a large one (and inside the large one right after a small one)
+                for j in range(2, len(st["blocks"])):
+                    bj = st["blocks"][j]
+                    body = bj["unpadded"] - bj["hsize"] - st["check_size"]
+                    cuts.append(("trunc-in-block-%d-mid" % j, bj["off"] + bj["hsize"] + max(1, body // 2)))
+                    cuts.append(("trunc-in-block-%d-early" % j, bj["off"] + bj["hsize"] + min(max(1, body - 1), 24)))
+                    cuts.append(("trunc-in-block-%d-late" % j, bj["off"] + bj["hsize"] + max(1, body - 3)))
             for tag, cut in cuts:
                 self.add(nm + "+" + tag, x[:cut], kind="truncated", **meta)
             # ---- bad Index / Footer
